@@ -54,11 +54,12 @@ def scenario(sc, rnd):
         oh.append(('ETag', '"e%d"' % rnd.randint(1, 9)))
     oabs = dict(life=L, mustreval=(p['reval'] != 'none' or p['kind'] == 'smaxage'), age0=a0)
     origin = {'status': 200, 'hdrs': oh, 'blen': rnd.choice([0, 1, 100, 5000]), 'abs': oabs}
+    first = dict(origin, clock_add=p['delay']) if p['delay'] else origin
     if rnd.random() < 0.5:
         origin['on_cond'] = {'status': 304}
     rh, rabs = REQ[p['req']]
-    steps = [{'op': 'req', 'id': 1, 'abs': REQ['none'][1], 'origin': origin},
-             {'op': 'clock', 't': sc['clk']},
+    steps = [{'op': 'req', 'id': 1, 'abs': REQ['none'][1], 'origin': first},
+             {'op': 'clock', 't': sc['clk'] + p['delay']},
              {'op': 'req', 'id': 2, 'hdrs': [(n, spell(rnd, v)) for n, v in rh], 'abs': rabs, 'origin': origin}]
     return {'steps': steps, 'par': p, 'pred': sc['pred']}
 
@@ -97,7 +98,7 @@ def run(ctx):
         seen, keep = set(), []
         for c in classes:
             p = c['par']
-            k = (p['kind'], p['req'], p['off'], p['reval'])
+            k = (p['kind'], p['req'], p['off'], p['reval'], p['delay'])
             if k not in seen:
                 seen.add(k)
                 keep.append(c)
